@@ -94,6 +94,13 @@ func (r *runner) order() {
 			}
 			text := "module m { namespace \"urn:m\"; prefix m; revision " + d1 + "; revision " + d2 + "; }"
 			r.do("order:rev:"+d1+":"+d2, rec{text, expect, "revision", "revision-order"}, true)
+			// extension statements are allowed anywhere, also between two revisions: the order rule
+			// still applies across them (module and submodule)
+			for ki, head := range []string{"module m { namespace \"urn:m\"; prefix m; ", "submodule m { belongs-to x { prefix m; } "} {
+				for ei, layout := range []string{"revision %s; m:ext a; revision %s;", "m:ext a; revision %s { m:ext b; } m:ext c { m:ext d; } revision %s; m:ext e;"} {
+					r.do(fmt.Sprintf("order:rev-ext:%d:%d:%s:%s", ki, ei, d1, d2), rec{head + fmt.Sprintf(layout, d1, d2) + " }", expect, "revision", "revision-order"}, true)
+				}
+			}
 			for _, d3 := range dates {
 				expect := "reject"
 				if d1 > d2 && d2 > d3 {
@@ -101,6 +108,8 @@ func (r *runner) order() {
 				}
 				text := "module m { namespace \"urn:m\"; prefix m; revision " + d1 + " { description \"x\"; } revision " + d2 + "; revision " + d3 + "; }"
 				r.do("order:rev3:"+d1+":"+d2+":"+d3, rec{text, expect, "revision", "revision-order"}, true)
+				text = "module m { namespace \"urn:m\"; prefix m; revision " + d1 + "; revision " + d2 + "; m:ext a; revision " + d3 + "; }"
+				r.do("order:rev3-ext:"+d1+":"+d2+":"+d3, rec{text, expect, "revision", "revision-order"}, true)
 			}
 		}
 	}
